@@ -6,6 +6,7 @@ import (
 	"reflect"
 	"runtime/debug"
 	"strings"
+	"sync"
 	"sync/atomic"
 	"time"
 
@@ -71,7 +72,8 @@ type Context struct {
 	actor         vivid.Actor                        // 当前 Actor
 	behaviorStack *BehaviorStack                     // 行为栈
 	mailbox       vivid.Mailbox                      // 邮箱
-	children      map[vivid.ActorPath]vivid.ActorRef // 懒加载的子 Actor 引用
+	children      map[vivid.ActorPath]vivid.ActorRef // 懒加载的子 Actor 引用（由 childrenLock 保护）
+	childrenLock  sync.RWMutex                       // 根 Actor 的 children 会被 System.ActorOf 的调用方与自身邮箱 goroutine 并发访问
 	envelop       vivid.Envelop                      // 当前 ActorContext 的消息
 	state         int32                              // 状态
 	zombie        bool                               // 是否为僵尸状态
@@ -175,10 +177,12 @@ func (c *Context) ActorOf(actor vivid.Actor, options ...vivid.ActorOption) (vivi
 		return nil, vivid.ErrorActorAlreadyExists.WithMessage(childCtx.Ref().GetPath())
 	}
 
+	c.childrenLock.Lock()
 	if c.children == nil {
 		c.children = make(map[vivid.ActorPath]vivid.ActorRef)
 	}
 	c.children[childCtx.Ref().GetPath()] = childCtx.Ref()
+	c.childrenLock.Unlock()
 
 	c.tell(true, childCtx.Ref(), new(vivid.OnLaunch))
 	c.Logger().Debug("actor spawned", log.String("path", childCtx.Ref().GetPath()))
@@ -554,7 +558,7 @@ func (c *Context) doKill(message *vivid.OnKill, behavior vivid.Behavior) {
 	c.system.removeFuturesByAgentPath(c.ref.GetPath(), vivid.ErrorActorDeaded)
 
 	// 等待所有子 Actor 结束，假设是重启，子 Actor 不应该跟随重启，应该由父节点决定是否重启
-	for _, child := range c.children {
+	for _, child := range c.Children() {
 		c.Logger().Debug("notify child kill", log.String("path", child.GetPath()))
 		c.Kill(child, message.Poison, message.Reason)
 	}
@@ -650,11 +654,28 @@ func (c *Context) Kill(ref vivid.ActorRef, poison bool, reason ...string) {
 }
 
 func (c *Context) Children() vivid.ActorRefs {
+	c.childrenLock.RLock()
+	defer c.childrenLock.RUnlock()
 	children := make(vivid.ActorRefs, 0, len(c.children))
 	for _, child := range c.children {
 		children = append(children, child)
 	}
 	return children
+}
+
+// removeChild 移除子 Actor 引用并返回剩余数量。
+func (c *Context) removeChild(path vivid.ActorPath) int {
+	c.childrenLock.Lock()
+	defer c.childrenLock.Unlock()
+	delete(c.children, path)
+	return len(c.children)
+}
+
+// childCount 返回子 Actor 数量。
+func (c *Context) childCount() int {
+	c.childrenLock.RLock()
+	defer c.childrenLock.RUnlock()
+	return len(c.children)
 }
 
 func (c *Context) failed(fault vivid.Message) {
